@@ -9,9 +9,10 @@ REQUIRED = ["Never.C07.verified_table_wellformed", "Never.C07.verified_every_fau
             "Never.C07.verified_frame_heights", "Never.C07.verified_mark_step", "Never.C07.verified_slide_step", "Never.C07.verified_clear_stack_step",
             "Never.C07.verified_data_step", "Never.C07.verified_local_in_frame", "Never.C07.frame_slot_is_read",
             "Never.C07.verified_step_in_activation", "Never.C07.verified_run_in_activation", "Never.C07.verified_run_fn_in_activation",
-            "Never.C07.stack_size_invariant", "Never.C07.verified_call_step", "Never.C07.verified_ret_step", "Never.C07.mark_pushes_record",
-            "Never.C07.verify_sound_partial", "Never.C07.verified_marked_call_returns", "Never.C07.verify_sound_from_start_partial", "Never.C07.frame_words_kept",
-            "Never.C07.effect_table_write_footprint", "Never.C07.verified_step_keeps_callers_frames", "Never.C07.verify_sound_pending_partial"]
+            "Never.C07.stack_size_invariant", "Never.C07.effect_table_write_footprint", "Never.C07.verified_step_keeps_frame_records",
+            "Never.C07.verified_step_keeps_callers_frames", "Never.C07.verified_mk_init_array_extents", "Never.C07.callee_arity_suffices",
+            "Never.C07.mark_pushes_record", "Never.C07.verified_ret_step", "Never.C07.verified_marked_call_returns",
+            "Never.C07.verify_sound_partial", "Never.C07.verify_sound_from_start_partial", "Never.C07.verify_sound_step_partial"]
 
 def verify_dump(path):
     """-> (verdict line, {address: (height, nparams)} for the addresses inside function bodies)"""
